@@ -18,6 +18,7 @@ type Solver struct {
 	Queries  int
 	Time     time.Duration
 	log      io.Writer
+	hist     []string
 }
 
 func NewSolver(alt string) *Solver {
@@ -35,19 +36,44 @@ func NewSolver(alt string) *Solver {
 	return s
 }
 
+func (s *Solver) trace(dir, str string) {
+	if len(str) > 300 {
+		str = str[:300] + "..."
+	}
+	s.hist = append(s.hist, dir+str)
+	if len(s.hist) > 120 {
+		s.hist = s.hist[len(s.hist)-120:]
+	}
+}
+
 func (s *Solver) send(str string) {
+	s.trace("> ", str)
 	if s.log != nil {
 		fmt.Fprintln(s.log, str)
 	}
 	io.WriteString(s.in, str+"\n")
 }
 
+// solverFault: the dialogue with the solver process went wrong (error line, unexpected answer, exit).
+// The process is no longer in a known state: the engine replaces it before running another path.
+type solverFault struct{ msg string }
+
 func (s *Solver) readLine() string {
 	l, err := s.out.ReadString('\n')
 	if err != nil {
-		panic("solver died: " + err.Error())
+		panic(solverFault{"solver died: " + err.Error()})
+	}
+	s.trace("< ", strings.TrimSpace(l))
+	if strings.HasPrefix(strings.TrimSpace(l), "(error") {
+		panic(solverFault{"solver error: " + strings.TrimSpace(l) + "\n" + strings.Join(s.hist, "\n")})
 	}
 	return strings.TrimSpace(l)
+}
+
+func (s *Solver) Kill() {
+	s.in.Close()
+	s.cmd.Process.Kill()
+	s.cmd.Wait()
 }
 
 func (s *Solver) Reset() {
@@ -88,7 +114,7 @@ func (s *Solver) Check(extra *Term) string {
 	r := s.readLine()
 	for strings.HasPrefix(r, "(error") || r == "" {
 		if strings.HasPrefix(r, "(error") {
-			panic("solver error: " + r)
+			panic(solverFault{"solver error: " + r})
 		}
 		r = s.readLine()
 	}
@@ -97,7 +123,7 @@ func (s *Solver) Check(extra *Term) string {
 	}
 	s.Time += time.Since(t0)
 	if r != "sat" && r != "unsat" && r != "unknown" {
-		panic("solver protocol: unexpected answer to check-sat: " + r)
+		panic(solverFault{"solver protocol: unexpected answer to check-sat: " + r})
 	}
 	return r
 }
@@ -117,7 +143,7 @@ func (s *Solver) Eval(extra *Term, t *Term) (uint64, bool) {
 	ok := false
 	var v uint64
 	if r != "sat" && r != "unsat" && r != "unknown" {
-		panic("solver protocol: unexpected answer to check-sat: " + r)
+		panic(solverFault{"solver protocol: unexpected answer to check-sat: " + r})
 	}
 	if r == "sat" {
 		s.send("(get-value (" + t.String() + "))")
@@ -147,7 +173,7 @@ func (s *Solver) Eval(extra *Term, t *Term) (uint64, bool) {
 		} else if strings.HasSuffix(l, " false))") {
 			v, ok = 0, true
 		} else {
-			panic("solver protocol: cannot parse get-value answer: " + l)
+			panic(solverFault{"solver protocol: cannot parse get-value answer: " + l})
 		}
 	}
 	if extra != nil {
@@ -172,7 +198,7 @@ func (s *Solver) Model(extra *Term, vars []*Term) ([]uint64, bool) {
 	s.send("(check-sat)")
 	r := s.readLine()
 	if r != "sat" && r != "unsat" && r != "unknown" {
-		panic("solver protocol: unexpected answer to check-sat: " + r)
+		panic(solverFault{"solver protocol: unexpected answer to check-sat: " + r + "\n" + strings.Join(s.hist, "\n")})
 	}
 	var out []uint64
 	ok := r == "sat"
